@@ -4,7 +4,9 @@ import (
 	"bytes"
 	"context"
 	"errors"
+	"fmt"
 	"io"
+	"os"
 	"strings"
 	"runtime"
 	"strconv"
@@ -83,6 +85,48 @@ func runC14(c *Ctx) bool {
 
 var c14Quiet = mon.NewLeakMonitor()
 
+const numBadFiles = 4
+
+// badFile returns an *os.File on which every write of at least one byte fails.
+func badFile(tmp string, kind int) (*os.File, string, func()) {
+	switch kind {
+	case 0:
+		f, err := os.OpenFile("/dev/full", os.O_WRONLY, 0)
+		if err != nil {
+			return nil, "", nil
+		}
+		return f, "/dev/full", func() { f.Close() }
+	case 1:
+		f, err := os.CreateTemp(tmp, "closed")
+		if err != nil {
+			return nil, "", nil
+		}
+		f.Close()
+		os.Remove(f.Name())
+		return f, "closed-file", func() {}
+	case 2:
+		f, err := os.CreateTemp(tmp, "ro")
+		if err != nil {
+			return nil, "", nil
+		}
+		name := f.Name()
+		f.Close()
+		r, err := os.Open(name)
+		os.Remove(name)
+		if err != nil {
+			return nil, "", nil
+		}
+		return r, "read-only-descriptor", func() { r.Close() }
+	default:
+		r, w, err := os.Pipe()
+		if err != nil {
+			return nil, "", nil
+		}
+		r.Close()
+		return w, "pipe-without-reader", func() { w.Close() }
+	}
+}
+
 type c14Mode struct {
 	name string
 	opts func() []gtree.Option
@@ -143,7 +187,18 @@ func evalC14(c *Ctx, cs *Case) {
 			return gtree.MkdirFromMarkdown(rd, mo(m, gtree.WithTargetDir(t))...)
 		}},
 	}
-	sentinel := errors.New("reader-sentinel")
+	// what the failing reader / writer returns: a plain sentinel, or an error a real stream could
+	// give and that a pipeline might be tempted to treat as "not a failure" (cancellation of
+	// SOMETHING ELSE than the massive context, a deadline, an unexpected EOF, a closed file)
+	faultErrs := []error{
+		errors.New("reader-sentinel"),
+		fmt.Errorf("request body: %w", context.Canceled),
+		context.DeadlineExceeded,
+		io.ErrUnexpectedEOF,
+		&os.PathError{Op: "read", Path: "/somewhere", Err: os.ErrClosed},
+		fmt.Errorf("stream: %w", io.ErrClosedPipe),
+	}
+	faultErrNames := []string{"sentinel", "wraps-context.Canceled", "context.DeadlineExceeded", "io.ErrUnexpectedEOF", "PathError(os.ErrClosed)", "wraps-io.ErrClosedPipe"}
 	offsets := make([]int, 0, len(doc)+1)
 	stride := 1
 	if len(doc) > 2000 {
@@ -191,6 +246,9 @@ func evalC14(c *Ctx, cs *Case) {
 				if massive {
 					c.Rejournal(cs)
 				}
+				fe := (k + ei + int(cs.Seed%7)) % len(faultErrs)
+				sentinel := faultErrs[fe]
+				c.SetAdd("injected_error_kinds", faultErrNames[fe])
 				rd := &mon.FaultReader{Doc: doc, K: k, Chunk: 1 + (k*7+ei)%13, Err: sentinel}
 				base := runtime.NumGoroutine()
 				o := Guard(func() error { return e.run(rd, massive, target) })
@@ -203,7 +261,7 @@ func evalC14(c *Ctx, cs *Case) {
 				c.Eval(gen.HashString(string(doc)+"\x00R"+cs.Entry+strconv.Itoa(k)), true)
 				c.Count("reader_faults", 1)
 				c.SetAdd("entries", cs.Entry)
-				det := map[string]any{"doc": string(doc), "offset": k, "delivered": string(doc[:k]), "err": errStr(o.Err)}
+				det := map[string]any{"doc": string(doc), "offset": k, "delivered": string(doc[:k]), "err": errStr(o.Err), "injected": faultErrNames[fe]}
 				switch {
 				case o.Panic != nil:
 					det["stack"] = o.Stack
@@ -234,13 +292,13 @@ func evalC14(c *Ctx, cs *Case) {
 					continue
 				}
 				mode := map[bool]string{true: "massive", false: "simple"}[massive]
-				run := func(w *mon.RecWriter) Outcome {
+				run := func(w io.Writer) Outcome {
 					opts := mo(massive, m.opts()...)
 					if fam == "FromRoot" {
 						g := BuildRoot(f[0])
 						return Guard(func() error { return gtree.OutputFromRoot(w, g, opts...) })
 					}
-					return Guard(func() error { return gtree.OutputFromMarkdown(w, bytes.NewReader(doc), opts...) })
+					return Guard(func() error { return gtree.OutputFromMarkdown(w, MDReader(string(doc)), opts...) })
 				}
 				// fault-free run: number of writes and reference output
 				ref := mon.NewRecWriter()
@@ -264,6 +322,39 @@ func evalC14(c *Ctx, cs *Case) {
 						refBlocks = model.RenderBlocks(merged, BranchTuples[3])
 					case "dryrun":
 						refBlocks = model.DryRunBlocks(merged, model.DefaultBranch, []string{".gz"})
+					}
+				}
+				// real files that refuse writes: a full device, a closed file, a read-only descriptor,
+				// a pipe nobody reads
+				if len(refOut) > 0 {
+					for fk := 0; fk < numBadFiles; fk++ {
+						bf, name, cleanup := badFile(c.TmpDir, fk)
+						if bf == nil {
+							continue
+						}
+						cs.Entry = "Output" + fam + "[" + m.name + "]," + mode
+						cs.N = []int{fk}
+						cs.Tags = append(append([]string(nil), baseTags...), "writer-fault", "os.File", name, mode, m.name)
+						if massive {
+							c.Rejournal(cs)
+						}
+						base := runtime.NumGoroutine()
+						o := run(bf)
+						if massive {
+							c14Quiet.Quiesce(base)
+						}
+						cleanup()
+						c.Eval(gen.HashString(string(doc)+"\x00F"+cs.Entry+name), true)
+						c.Count("file_writer_faults", 1)
+						c.SetAdd("failing_file_kinds", name)
+						det := map[string]any{"doc": trunc(string(doc), 600), "file": name, "expected_output_bytes": len(refOut), "err": errStr(o.Err)}
+						switch {
+						case o.Panic != nil:
+							det["stack"] = o.Stack
+							c.Violation(cs, "panic", PanicSig(o.Panic, o.Stack), det)
+						case o.Err == nil:
+							c.Violation(cs, "writer.failure-swallowed", "os.File:"+name, det)
+						}
 					}
 				}
 				// every write index for ordinary output; for outputs with many writes the first, the
@@ -302,6 +393,8 @@ func evalC14(c *Ctx, cs *Case) {
 						}
 						w := mon.NewRecWriter()
 						w.FailAt, w.Short, w.Transient = i, short, transient
+						fe := (i + variant + int(cs.Seed%5)) % len(faultErrs)
+						w.Err = faultErrs[fe]
 						base := runtime.NumGoroutine()
 						o := run(w)
 						if massive {
@@ -311,7 +404,7 @@ func evalC14(c *Ctx, cs *Case) {
 						c.Eval(gen.HashString(string(doc)+"\x00W"+cs.Entry+strconv.Itoa(i)+strconv.Itoa(variant)), true)
 						c.Count("writer_faults", 1)
 						c.SetAdd("entries", cs.Entry)
-						det := map[string]any{"doc": string(doc), "write_index": i, "writes": writes, "short": short, "transient": transient, "failed_writes": failed, "err": errStr(o.Err), "accepted": trunc(string(w.Bytes()), 600)}
+						det := map[string]any{"doc": string(doc), "write_index": i, "writes": writes, "short": short, "transient": transient, "failed_writes": failed, "err": errStr(o.Err), "injected": faultErrNames[fe], "accepted": trunc(string(w.Bytes()), 600)}
 						switch {
 						case o.Panic != nil:
 							det["stack"] = o.Stack
@@ -350,7 +443,7 @@ func evalC14(c *Ctx, cs *Case) {
 			}
 			call := func(w io.Writer) Outcome {
 				base := runtime.NumGoroutine()
-				o := Guard(func() error { return gtree.OutputFromMarkdown(w, bytes.NewReader(doc), mo(massive)...) })
+				o := Guard(func() error { return gtree.OutputFromMarkdown(w, MDReader(string(doc)), mo(massive)...) })
 				if massive {
 					c14Quiet.Quiesce(base)
 				}
